@@ -497,8 +497,8 @@ theorem roundND_exact (f : Fmt) (neg : Bool) {N : Nat} (hN : N ≠ 0) (hlt : N <
   simp only [Fmt.roundND, hne, ite_false, hlog, hnotlt, hm, hmlt, hnotmax]
 
 
-/-- the format can hold the integers below `2^prec` as normal numbers -/
-def FmtOk (f : Fmt) : Prop := 1 ≤ f.prec ∧ f.emin ≤ 0 ∧ (f.prec : Int) - 1 ≤ f.emax
+/-- the format has at least two significand bits and holds the integers below `2^prec` as normal numbers -/
+def FmtOk (f : Fmt) : Prop := 2 ≤ f.prec ∧ f.emin ≤ 0 ∧ (f.prec : Int) - 1 ≤ f.emax
 
 instance (f : Fmt) : Decidable (FmtOk f) := by unfold FmtOk; exact inferInstance
 
@@ -822,7 +822,7 @@ theorem floorEmul_intRep (f : Fmt) (hf : FmtOk f) (D : IntTy) (hDb : 1 ≤ D.bit
     · rw [h]; exact RoundCvtP.zero_inRange D
     · rw [h.1]; exact hD1
   have hp1 : (1:Nat) < 2^f.prec := by
-    have : 2^1 ≤ 2^f.prec := Nat.pow_le_pow_right (by decide) hf.1
+    have : 2^1 ≤ 2^f.prec := Nat.pow_le_pow_right (by decide) (Nat.le_trans (by decide) hf.1)
     omega
   have hrsmall : (residual s m e).natAbs < 2^f.prec := by
     rcases hrc with h | h
@@ -839,5 +839,324 @@ theorem floorEmul_intRep (f : Fmt) (hf : FmtOk f) (D : IntTy) (hDb : 1 ≤ D.bit
 theorem fToInt_intRep (D : IntTy) {y : FVal} {a : Int} (h : IntRep y a) : fToInt D y = intoRange D a := by
   obtain ⟨s, M, E, rfl, hE, hv⟩ := h
   simp only [fToInt, truncInt_intRep hE hv]
+
+end Cnl.FloatP
+
+namespace Cnl.FloatP
+open Cnl Cnl.Spec
+
+/-! ## rounding a dyadic value, re-expressed at a finer quantum -/
+
+theorem sgn_mul_pos (v : Int) {c : Int} (hc : 0 < c) : sgn (v * c) = sgn v := by
+  unfold sgn
+  by_cases h : v < 0
+  · have := Int.mul_neg_of_neg_of_pos h hc
+    simp only [h, this, ite_true]
+  · by_cases h0 : v = 0
+    · subst h0; simp
+    · have := Int.mul_pos (show 0 < v by omega) hc
+      have h1 : ¬ v * c < 0 := by omega
+      have h2 : ¬ v * c = 0 := by omega
+      simp only [h, h0, h1, h2, ite_false]
+
+theorem roundShift_zero (m : RoundMode) (v : Int) : roundShift m v 0 = v := by
+  cases m <;> simp only [roundShift, Int.pow_zero, Int.zero_add, Int.pow_one]
+  · exact Int.tdiv_one v
+  · unfold sgn
+    by_cases h : v < 0
+    · simp only [h, ite_true]; omega
+    · by_cases h0 : v = 0
+      · subst h0; simp
+      · simp only [h, h0, ite_false]; omega
+  · omega
+  · exact Int.ediv_one v
+
+theorem roundShift_mul_pow (m : RoundMode) (v : Int) (k c : Nat) :
+    roundShift m (v * 2^c) (k + c) = roundShift m v k := by
+  have hc := two_pow_pos c
+  have e1 : (2:Int)^(k + c) = 2^k * 2^c := Int.pow_add ..
+  have e2 : (2:Int)^(k + c + 1) = 2^(k+1) * 2^c := by rw [← Int.pow_add]; congr 1; omega
+  cases m <;> simp only [roundShift]
+  · rw [e1, Int.mul_tdiv_mul_of_pos_left _ _ hc]
+  · rw [sgn_mul_pos v hc, e1, e2]
+    have : (2 * ((v * 2^c).natAbs : Int) + 2^k * 2^c) = (2 * (v.natAbs : Int) + 2^k) * 2^c := by
+      rw [Int.natAbs_mul, Int.natCast_mul, Int.add_mul]
+      have : (((2:Int)^c).natAbs : Int) = 2^c := by omega
+      rw [this, Int.mul_assoc]
+    rw [this, Int.mul_ediv_mul_of_pos_left _ _ hc]
+  · rw [e1, e2]
+    have : 2 * (v * 2^c) + 2^k * 2^c = (2 * v + 2^k) * 2^c := by rw [Int.add_mul, Int.mul_assoc]
+    rw [this, Int.mul_ediv_mul_of_pos_left _ _ hc]
+  · rw [e1, Int.mul_ediv_mul_of_pos_left _ _ hc]
+
+/-- `a · 2^e` rounded = `(a · 2^(e-q)) / 2^(-q)` rounded, for any quantum `2^q` below both -/
+theorem roundDyadic_rescale (m : RoundMode) (a : Int) {e q : Int} (hq : q ≤ e) (hq0 : q ≤ 0) :
+    roundDyadic m a e = roundShift m (a * 2^(e - q).toNat) (-q).toNat := by
+  unfold roundDyadic
+  by_cases h : 0 ≤ e
+  · simp only [h, ite_true]
+    have e1 : (2:Int)^(e - q).toNat = 2^e.toNat * 2^(-q).toNat := by rw [← Int.pow_add]; congr 1; omega
+    have := roundShift_mul_pow m (a * 2^e.toNat) 0 (-q).toNat
+    rw [Nat.zero_add, roundShift_zero] at this
+    rw [e1, ← Int.mul_assoc, this]
+  · simp only [h, ite_false]
+    have := roundShift_mul_pow m a (-e).toNat (e - q).toNat
+    have e2 : (-e).toNat + (e - q).toNat = (-q).toNat := by omega
+    rw [e2] at this
+    exact this.symm
+
+
+/-! ## conversions that add a bias of one half before flooring / truncating -/
+
+/-- the quantum at which `x`, `y` and `1/2` are all integers -/
+def biasQ (e e' : Int) : Int := min e (min e' (-1))
+
+/-- `y = (-1)^s' m' 2^e'` is exactly `x + b/2` for `x = (-1)^s m 2^e` (`b = ±1`): the biased sum was
+not rounded.  Stated in units of `2^(biasQ e e')`; decidable. -/
+def ExactBias (s : Bool) (m : Nat) (e : Int) (s' : Bool) (m' : Nat) (e' : Int) (b : Int) : Prop :=
+  sval s' m' * 2^(e' - biasQ e e').toNat = sval s m * 2^(e - biasQ e e').toNat + b * 2^(-1 - biasQ e e').toNat
+
+instance (s : Bool) (m : Nat) (e : Int) (s' : Bool) (m' : Nat) (e' : Int) (b : Int) :
+    Decidable (ExactBias s m e s' m' e' b) := by unfold ExactBias; exact inferInstance
+
+theorem biasQ_le (e e' : Int) : biasQ e e' ≤ e ∧ biasQ e e' ≤ e' ∧ biasQ e e' ≤ -1 := by
+  unfold biasQ; omega
+
+/-- flooring an exact `x + 1/2` rounds `x` to nearest, ties toward +∞ -/
+theorem floor_exactBias {s : Bool} {m : Nat} {e : Int} {s' : Bool} {m' : Nat} {e' : Int}
+    (h : ExactBias s m e s' m' e' 1) :
+    roundDyadic .floor (sval s' m') e' = roundDyadic .nearestUp (sval s m) e := by
+  obtain ⟨h1, h2, h3⟩ := biasQ_le e e'
+  unfold ExactBias at h
+  generalize biasQ e e' = q at *
+  rw [roundDyadic_rescale .floor _ h2 (by omega), roundDyadic_rescale .nearestUp _ h1 (by omega), h, Int.one_mul]
+  have hk : 0 < (-q).toNat := by omega
+  have := shift_bias_eq (sval s m * 2^(e - q).toNat) hk
+  have e1 : (-1 - q).toNat = (-q).toNat - 1 := by omega
+  rw [e1]; exact this
+
+/-- truncating an exact `x ± 1/2` (sign of `x`) rounds `x` to nearest, ties away from zero -/
+theorem trunc_exactBias {s : Bool} {m : Nat} {e : Int} {s' : Bool} {m' : Nat} {e' : Int}
+    (h : ExactBias s m e s' m' e' (if 0 ≤ sval s m then 1 else -1)) :
+    truncInt s' m' e' = roundDyadic .nearestAway (sval s m) e := by
+  obtain ⟨h1, h2, h3⟩ := biasQ_le e e'
+  unfold ExactBias at h
+  generalize biasQ e e' = q at *
+  have ht : truncInt s' m' e' = roundDyadic .truncate (sval s' m') e' := by
+    rw [truncInt_eq]; rfl
+  rw [ht, roundDyadic_rescale .truncate _ h2 (by omega), roundDyadic_rescale .nearestAway _ h1 (by omega), h]
+  have hk : 0 < (-q).toNat := by omega
+  have hp := two_pow_pos (e - q).toNat
+  have := trunc_bias_eq (sval s m * 2^(e - q).toNat) hk
+  have e1 : (-1 - q).toNat = (-q).toNat - 1 := by omega
+  rw [e1, ← this]
+  by_cases h0 : 0 ≤ sval s m
+  · have : 0 ≤ sval s m * 2^(e - q).toNat := Int.mul_nonneg h0 (Int.le_of_lt hp)
+    simp only [h0, this, ite_true, Int.one_mul]
+    rfl
+  · have : ¬ 0 ≤ sval s m * 2^(e - q).toNat := by
+      have := Int.mul_neg_of_neg_of_pos (show sval s m < 0 by omega) hp
+      omega
+    simp only [h0, this, ite_false, Int.neg_mul, Int.one_mul]
+    rw [← Int.sub_eq_add_neg]
+    rfl
+
+/-- `x >= 0` -/
+theorem fCmp_ge_zero (f : Fmt) (s : Bool) (m : Nat) (e : Int) :
+    fCmp .ge (.fin s m e) (f.ofInt 0) = decide (0 ≤ sval s m) := by
+  have h0 : f.ofInt 0 = .fin false 0 f.qmin := by simp [Fmt.ofInt, Fmt.roundND]
+  rw [h0, fCmp_ge_fin, scaled_eq, scaled_eq]
+  apply decide_eq_decide.2
+  have : sval false 0 = 0 := by simp [sval]
+  rw [this, Int.zero_mul]
+  have hp := two_pow_pos (e - if e ≤ f.qmin then e else f.qmin).toNat
+  constructor
+  · intro h
+    apply Decidable.byContradiction; intro hn
+    have := Int.mul_neg_of_neg_of_pos (show sval s m < 0 by omega) hp
+    omega
+  · intro h; exact Int.mul_nonneg h (Int.le_of_lt hp)
+
+
+/-! ## `floatToInt` -/
+
+theorem trunc_inRange_of_floor (D : IntTy) (s : Bool) (m : Nat) (e : Int)
+    (h : D.InRange (roundDyadic .floor (sval s m) e)) : D.InRange (truncInt s m e) := by
+  have hfl := floor_eq_trunc_sub s m e
+  have hz := RoundCvtP.zero_inRange D
+  unfold IntTy.InRange at *
+  rcases residual_cases s m e with hr | hr
+  · rw [hr] at hfl; omega
+  · rw [hr.1] at hfl; omega
+
+theorem truncInt_eq_roundDyadic (s : Bool) (m : Nat) (e : Int) :
+    truncInt s m e = roundDyadic .truncate (sval s m) e := by rw [truncInt_eq]; rfl
+
+/-- neg_inf: the home-made floor, then the cast -/
+theorem float_ninf_eval (f : Fmt) (hf : FmtOk f) (D : IntTy) (hDb : 1 ≤ D.bits) (hD1 : D.InRange 1)
+    (s : Bool) (m : Nat) (e : Int) (hfloor : D.InRange (roundDyadic .floor (sval s m) e))
+    (hsmall : (roundDyadic .floor (sval s m) e).natAbs < 2^f.prec) :
+    RoundCvt.floatToInt .ninf f D (.fin s m e) = .ok (roundDyadic .floor (sval s m) e) := by
+  obtain ⟨y, hy, hrep⟩ := floorEmul_intRep f hf D hDb hD1 s m e (trunc_inRange_of_floor D s m e hfloor) hsmall
+  simp only [RoundCvt.floatToInt, hy, Res.bind_ok, fToInt_intRep D hrep, intoRange, hfloor, ite_true]
+
+/-- tie_to_pos_inf: floor of the biased sum `y = x + .5` computed in the source format -/
+theorem float_tpi_eval (f : Fmt) (hf : FmtOk f) (D : IntTy) (hDb : 1 ≤ D.bits) (hD1 : D.InRange 1)
+    (x : FVal) (s' : Bool) (m' : Nat) (e' : Int) (hy : f.add x (f.ofDyadic false 1 (-1)) = .fin s' m' e')
+    (hfloor : D.InRange (roundDyadic .floor (sval s' m') e'))
+    (hsmall : (roundDyadic .floor (sval s' m') e').natAbs < 2^f.prec) :
+    RoundCvt.floatToInt .tpi f D x = .ok (roundDyadic .floor (sval s' m') e') := by
+  have := float_ninf_eval f hf D hDb hD1 s' m' e' hfloor hsmall
+  simp only [RoundCvt.floatToInt, hy] at this ⊢
+  exact this
+
+/-- nearest: truncation of the biased sum `x ± .5L` computed in long double -/
+theorem float_nrst_eval (f : Fmt) (D : IntTy) (s : Bool) (m : Nat) (e : Int) (s' : Bool) (m' : Nat) (e' : Int)
+    (hy : (if 0 ≤ sval s m then x87ext.add (x87ext.cvt (.fin s m e)) (x87ext.ofDyadic false 1 (-1))
+           else x87ext.sub (x87ext.cvt (.fin s m e)) (x87ext.ofDyadic false 1 (-1))) = .fin s' m' e') :
+    RoundCvt.floatToInt .nrst f D (.fin s m e) = intoRange D (truncInt s' m' e') := by
+  simp only [RoundCvt.floatToInt, fCmp_ge_zero, decide_eq_true_eq, hy, fToInt]
+
+end Cnl.FloatP
+
+namespace Cnl.FloatP
+open Cnl Cnl.Spec
+
+/-! ## integral values of magnitude `≥ 2^(prec-1)`: `Source(Destination(x))` is `x` itself -/
+
+theorem qmin_neg {f : Fmt} (hf : FmtOk f) : f.qmin < 0 := by
+  obtain ⟨h1, h2, h3⟩ := hf; unfold Fmt.qmin; omega
+
+theorem log2_normal {m p : Nat} (hp : 1 ≤ p) (h1 : 2^(p-1) ≤ m) (h2 : m < 2^p) : m.log2 = p - 1 := by
+  have hm : m ≠ 0 := by have := Nat.two_pow_pos (p-1); omega
+  rw [Nat.log2_eq_iff hm, show p - 1 + 1 = p by omega]
+  exact ⟨h1, h2⟩
+
+theorem sval_neg_iff (s : Bool) {m : Nat} (hm : m ≠ 0) : decide (sval s m < 0) = s := by
+  unfold sval; cases s <;> simp <;> omega
+
+theorem natAbs_sval (s : Bool) (m : Nat) : (sval s m).natAbs = m := by
+  unfold sval; cases s <;> simp
+
+/-- rounding the value of a normal canonical number returns it -/
+theorem roundND_self (f : Fmt) (hf : FmtOk f) (s : Bool) {m : Nat} (e : Int)
+    (h1 : 2^(f.prec-1) ≤ m) (h2 : m < 2^f.prec) (hlo : f.qmin ≤ e) (hhi : e + ((f.prec : Int) - 1) ≤ f.emax)
+    (t b : Nat) (htb : (t : Int) - b = e) :
+    f.roundND s (m * 2^t) (2^b) = .fin s m e := by
+  have hp : 1 ≤ f.prec := Nat.le_trans (by decide) hf.1
+  have hm : m ≠ 0 := by have := Nat.two_pow_pos (f.prec-1); omega
+  have hL := log2_normal hp h1 h2
+  have hq : f.qmin = f.emin - ((f.prec : Int) - 1) := rfl
+  rw [roundND_exact f s hm h2 t b (by rw [hL]; omega) (by rw [hL]; omega), hL, Nat.sub_self, Nat.pow_zero, Nat.mul_one]
+  congr 1; omega
+
+theorem ofInt_self (f : Fmt) (hf : FmtOk f) (s : Bool) {m : Nat} {e : Int} (he : 0 ≤ e)
+    (h1 : 2^(f.prec-1) ≤ m) (h2 : m < 2^f.prec) (hhi : e + ((f.prec : Int) - 1) ≤ f.emax) :
+    f.ofInt (sval s m * 2^e.toNat) = .fin s m e := by
+  have hm : m ≠ 0 := by have := Nat.two_pow_pos (f.prec-1); omega
+  have hp := two_pow_pos e.toNat
+  unfold Fmt.ofInt
+  have habs : (sval s m * 2^e.toNat).natAbs = m * 2^e.toNat := by
+    rw [Int.natAbs_mul, natAbs_sval, Int.natAbs_pow]; rfl
+  have hneg : decide (sval s m * 2^e.toNat < 0) = s := by
+    have h' : decide (sval s m * 2^e.toNat < 0) = decide (sval s m < 0) := by
+      apply decide_eq_decide.2
+      have := mul_two_pow_lt_iff (sval s m) 0 e.toNat
+      rw [Int.zero_mul] at this; exact this
+    rw [h', sval_neg_iff s hm]
+  rw [habs, hneg]
+  have := roundND_self f hf s e h1 h2 (by have := qmin_neg hf; omega) hhi e.toNat 0 (by omega)
+  rw [Nat.pow_zero] at this; exact this
+
+theorem sub_zero_self (f : Fmt) (hf : FmtOk f) (s : Bool) {m : Nat} {e : Int}
+    (h1 : 2^(f.prec-1) ≤ m) (h2 : m < 2^f.prec) (hlo : f.qmin ≤ e) (hhi : e + ((f.prec : Int) - 1) ≤ f.emax) :
+    f.sub (.fin s m e) (f.ofInt 0) = .fin s m e := by
+  have hm : m ≠ 0 := by have := Nat.two_pow_pos (f.prec-1); omega
+  have hqn := qmin_neg hf
+  have h0 : f.ofInt 0 = .fin false 0 f.qmin := by simp [Fmt.ofInt, Fmt.roundND]
+  have hq : (if e ≤ f.qmin then e else f.qmin) = f.qmin := by split <;> omega
+  have hp := two_pow_pos (e - f.qmin).toNat
+  have hz : FVal.scaled true 0 f.qmin f.qmin = 0 := by simp [FVal.scaled]
+  have hc0 : sval s m * 2^(e - f.qmin).toNat ≠ 0 := by
+    intro h; rcases Int.mul_eq_zero.1 h with h | h
+    · have := natAbs_sval s m; rw [h] at this; simp at this; omega
+    · omega
+  have habs : (sval s m * 2^(e - f.qmin).toNat).natAbs = m * 2^(e - f.qmin).toNat := by
+    rw [Int.natAbs_mul, natAbs_sval, Int.natAbs_pow]; rfl
+  have hneg : decide (sval s m * 2^(e - f.qmin).toNat < 0) = s := by
+    have h' : decide (sval s m * 2^(e - f.qmin).toNat < 0) = decide (sval s m < 0) := by
+      apply decide_eq_decide.2
+      have := mul_two_pow_lt_iff (sval s m) 0 (e - f.qmin).toNat
+      rw [Int.zero_mul] at this; exact this
+    rw [h', sval_neg_iff s hm]
+  have hnq : ¬ 0 ≤ f.qmin := by omega
+  simp only [Fmt.sub, h0, FVal.neg, Fmt.add, hq, scaled_eq s m, hz, Int.add_zero, hc0, ite_false, habs, hneg,
+    Bool.not_false, Fmt.ofDyadic, hnq]
+  exact roundND_self f hf s e h1 h2 hlo hhi _ _ (by omega)
+
+theorem fCmp_lt_self (x : FVal) : fCmp .lt x x = false := by
+  cases x with
+  | fin s m e => rw [fCmp_lt_fin]; simp
+  | inf b => simp [fCmp, FVal.cmp?]
+  | nan => simp [fCmp, FVal.cmp?]
+
+/-- neg_inf on an integral value held as a normal number with non-negative exponent -/
+theorem float_ninf_eval_large (f : Fmt) (hf : FmtOk f) (D : IntTy) (hDb : 1 ≤ D.bits)
+    (s : Bool) (m : Nat) (e : Int) (he : 0 ≤ e)
+    (h1 : 2^(f.prec-1) ≤ m) (h2 : m < 2^f.prec) (hhi : e + ((f.prec : Int) - 1) ≤ f.emax)
+    (hfloor : D.InRange (roundDyadic .floor (sval s m) e)) :
+    RoundCvt.floatToInt .ninf f D (.fin s m e) = .ok (roundDyadic .floor (sval s m) e) := by
+  have hfl : roundDyadic .floor (sval s m) e = sval s m * 2^e.toNat := by simp [roundDyadic, he]
+  have htr : truncInt s m e = sval s m * 2^e.toNat := by rw [truncInt_eq]; simp [he]
+  rw [hfl] at hfloor ⊢
+  have hlo : f.qmin ≤ e := by have := qmin_neg hf; omega
+  simp only [RoundCvt.floatToInt, RoundCvt.floorEmul, fToInt, htr, intoRange, hfloor, ite_true, Res.bind_ok,
+    ofInt_self f hf s he h1 h2 hhi, fCmp_lt_self, Bool.and_false, Bool.false_eq_true, ite_false,
+    IntTy.wrap_id hDb (RoundCvtP.zero_inRange D), sub_zero_self f hf s h1 h2 hlo hhi, Res.pure_eq]
+
+
+theorem ediv_natAbs_lt {a p : Int} (hp : 0 < p) {B : Nat} (h : a.natAbs < B) : (a / p).natAbs < B := by
+  by_cases ha : 0 ≤ a
+  · have h1 := Int.ediv_nonneg ha (Int.le_of_lt hp)
+    have h2 := Int.ediv_le_self p ha
+    omega
+  · have h1 : a ≤ a / p := by
+      apply Int.le_ediv_of_mul_le hp
+      have := Int.mul_le_mul_of_nonpos_left (a := a) (b := p) (c := 1) (by omega) (by omega)
+      omega
+    have h2 : a / p < 0 := Int.ediv_neg_of_neg_of_pos (by omega) hp
+    omega
+
+/-- neg_inf, every canonical finite source value -/
+theorem float_ninf_canonical (f : Fmt) (hf : FmtOk f) (D : IntTy) (hDb : 1 ≤ D.bits) (hD1 : D.InRange 1)
+    (s : Bool) (m : Nat) (e : Int) (hc : f.Canonical (.fin s m e) = true)
+    (hfloor : D.InRange (roundDyadic .floor (sval s m) e)) :
+    RoundCvt.floatToInt .ninf f D (.fin s m e) = .ok (roundDyadic .floor (sval s m) e) := by
+  simp only [Fmt.Canonical, Bool.and_eq_true, Bool.or_eq_true, decide_eq_true_eq] at hc
+  obtain ⟨⟨⟨hm, hlo⟩, hhi⟩, hnorm⟩ := hc
+  by_cases hs : (roundDyadic .floor (sval s m) e).natAbs < 2^f.prec
+  · exact float_ninf_eval f hf D hDb hD1 s m e hfloor hs
+  · have he : 0 ≤ e := by
+      apply Decidable.byContradiction; intro hn
+      apply hs
+      have : roundDyadic .floor (sval s m) e = sval s m / 2^(-e).toNat := by simp [roundDyadic, hn, roundShift]
+      rw [this]
+      exact ediv_natAbs_lt (two_pow_pos _) (by rw [natAbs_sval]; exact hm)
+    have h1 : 2^(f.prec-1) ≤ m := by
+      rcases hnorm with h | h
+      · exact h
+      · have := qmin_neg hf; omega
+    exact float_ninf_eval_large f hf D hDb s m e he h1 hm hhi hfloor
+
+
+/-- tie_to_pos_inf with a canonical biased sum -/
+theorem float_tpi_eval_canonical (f : Fmt) (hf : FmtOk f) (D : IntTy) (hDb : 1 ≤ D.bits) (hD1 : D.InRange 1)
+    (x : FVal) (s' : Bool) (m' : Nat) (e' : Int) (hy : f.add x (f.ofDyadic false 1 (-1)) = .fin s' m' e')
+    (hc : f.Canonical (.fin s' m' e') = true)
+    (hfloor : D.InRange (roundDyadic .floor (sval s' m') e')) :
+    RoundCvt.floatToInt .tpi f D x = .ok (roundDyadic .floor (sval s' m') e') := by
+  have := float_ninf_canonical f hf D hDb hD1 s' m' e' hc hfloor
+  simp only [RoundCvt.floatToInt, hy] at this ⊢
+  exact this
 
 end Cnl.FloatP
